@@ -120,6 +120,16 @@ def check_sinusoid(ctx, case):
                       % (em, MEAN_IF, f, sr), case)
         return
     ctx.count('accuracy_ok:' + method)
+    if ctx.evaluations % 4 == 0:
+        # "any set of IMFs": the same IMF preceded by a column that does not oscillate (a zeroed IMF, a constant, a trend) is
+        # transformed exactly as it is on its own
+        lead = [np.zeros(n), np.full(n, 1.5 * A), A * t / max(t[-1], 1e-300)][(ctx.evaluations // 4) % 3]
+        P2, F2, A2 = SP.frequency_transform(np.column_stack([lead, x]), sr_arg, method)
+        ctx.count('sets_with_a_non_oscillating_column')
+        if P2.shape != (n, 2) or not (np.array_equal(P2[:, 1], IP[:, 0]) and np.array_equal(F2[:, 1], IF[:, 0]) and np.array_equal(A2[:, 1], IA[:, 0])):
+            ctx.violation('column-dependence:non-oscillating-neighbour', 'the transform (%s) of an IMF changes when a column that does not oscillate is placed before it '
+                          '(amplitude max diff %s)' % (method, '%.3g' % np.nanmax(np.abs(A2[:, 1] - IA[:, 0])) if A2.shape == (n, 2) else 'n/a'), case)
+            return
     if case.get('subnormal'):
         ctx.count('sinusoids_of_subnormal_amplitude')
         return            # (power-of-two rescaling is not exact once samples are rounded to the subnormal grid)
